@@ -110,6 +110,19 @@ DESIGN6 = ["Conv6_typical.cfg", "Conv6_nosid.cfg", "Conv6_prefixfirst.cfg"]
 NAMES6 = ["typical6", "nosid6", "prefixfirst6", "filelast6"]
 
 
+def _walk6(ctx, wd, c, out):
+    """The conversations of chain c: a few hundred per PROCESS (plugins keep what they were configured with in package-level
+    variables - the dns plugin appends to its server list at every set-up - and a server sets a chain up once)."""
+    parts = 1 if ctx.quick else 10
+    with open(out, "w") as f:
+        for part in range(parts):
+            tmp = os.path.join(wd, "walk6-%d-%d.ndjson" % (c, part))
+            core.run_harness(ctx.need_harness(), ["conv6", "-chain", c, "-seed", ctx.seed if parts == 1 else ctx.seed * 1000 + part, "-walks", 300 if ctx.quick else 400,
+                                                  "-out", tmp, "-dir", os.path.join(wd, "d%d-%d" % (c, part))], wd, timeout=1800)
+            f.write(open(tmp).read())
+            os.remove(tmp)
+
+
 def _rerun6(ctx0):
     def f(ctx, scenario, out):
         evs = [json.loads(line) for line in open(scenario)]
@@ -117,7 +130,7 @@ def _rerun6(ctx0):
         want = [(e["c"], e["mt"], e["sid"], e["na"], e["pd"]) for e in evs if e["ev"] == "c6msg"]
         wd = ctx.scratch.sub("conv6-rerun")
         tmp = os.path.join(wd, "all.ndjson")
-        core.run_harness(ctx.need_harness(), ["conv6", "-chain", c, "-seed", ctx.seed, "-walks", 300 if ctx.quick else 4000, "-out", tmp, "-dir", os.path.join(wd, "d")], wd, timeout=1800)
+        _walk6(ctx, wd, c, tmp)
         cur, keep = [], None
         for line in list(open(tmp)) + ['{"ev": "c6reset"}']:
             e = json.loads(line)
@@ -147,7 +160,7 @@ def run6(ctx, design=True):
 
     def one(c):
         out = os.path.join(wd, "conv6-%d.ndjson" % c)
-        core.run_harness(h, ["conv6", "-chain", c, "-seed", ctx.seed, "-walks", 300 if ctx.quick else 4000, "-out", out, "-dir", os.path.join(wd, "d%d" % c)], wd, timeout=1800)
+        _walk6(ctx, wd, c, out)
         return out
 
     with concurrent.futures.ThreadPoolExecutor(max_workers=CHAINS6) as ex:
